@@ -1,6 +1,7 @@
 package main
 
 import (
+	"encoding/hex"
 	"fmt"
 	"sort"
 	"strings"
@@ -9,6 +10,7 @@ import (
 	"github.com/paulmach/orb/clip"
 	"github.com/paulmach/orb/clip/smartclip"
 	"github.com/paulmach/orb/encoding/ewkb"
+	"github.com/paulmach/orb/encoding/mvt"
 	"github.com/paulmach/orb/encoding/wkb"
 	"github.com/paulmach/orb/encoding/wkt"
 	"github.com/paulmach/orb/geo"
@@ -22,19 +24,33 @@ import (
 
 func init() { register(&Prop{ID: "C20", Run: runC20, Gen: genC20}) }
 
-// entry is one exported function with an orb.Geometry parameter.
+// entry is one exported function with an orb.Geometry parameter (or, for mvt, the exported function
+// through which the generic switch `encodeGeometry` is reached).
 type entry struct {
 	name     string
 	readOnly bool
-	// combine: how a collection relates to its members: "" (not checked), "sum", "min", "map", "mapdrop", "union"
+	// combine is documentation only: the rule by which a collection's outcome is rebuilt from its
+	// members' outcomes is the DRIVER's table (Driver/C20.lean `combineOf`), so nothing here can weaken it.
 	combine string
 	call    func(g orb.Geometry) string
-	// typed returns the kind-specific function's outcome ("-" when there is none for this kind)
+	// typed returns the RAW outcome of the kind-specific function ("-" when there is none for this
+	// kind).  How the generic function wraps it (bound pre-test, nil for an empty result, single-member
+	// unwrapping) is stated in the driver (`relate`), not here.
 	typed func(g orb.Geometry) string
+	// nilMemberAsEmpty: the member outcome of a typed-nil MEMBER is taken on the empty value of its
+	// kind (WKB/EWKB only: at top level a typed nil writes no bytes, as a member it is written as the
+	// empty value — fix 968afdb —, so the stand-alone encoding of the nil is not what the collection holds)
+	nilMemberAsEmpty bool
 }
 
 var c20Box = orb.Bound{Min: orb.Point{0, 0}, Max: orb.Point{4, 4}}
 var c20Pt = orb.Point{1.5, 2.5}
+var c20DegBoxes = []orb.Bound{
+	{Min: orb.Point{2, 2}, Max: orb.Point{2, 2}}, // a point
+	{Min: orb.Point{0, 2}, Max: orb.Point{4, 2}}, // flat
+	{Min: orb.Point{1, 0}, Max: orb.Point{1, 4}}, // flat the other way
+	{Min: orb.Point{4, 4}, Max: orb.Point{0, 0}}, // inverted
+}
 
 func shift(p orb.Point) orb.Point { return orb.Point{p[0]*2 + 1, p[1]*3 - 2} }
 
@@ -54,11 +70,56 @@ func sset(s maptile.Set, err error) string {
 
 func gsn(g orb.Geometry) string { return strings.ReplaceAll(gs(g), " ", "_") }
 
+func us(s string) string { return strings.ReplaceAll(s, " ", "_") }
+
+func bytesOut(b []byte, err error) string {
+	if err != nil {
+		return "err"
+	}
+	return hexOrEmpty(b)
+}
+
+// asPolygon: the value the encoders write a ring / a bound as ("-" typed outcome otherwise)
+func asPolygon(g orb.Geometry) (orb.Geometry, bool) {
+	switch v := g.(type) {
+	case orb.Ring:
+		if v == nil {
+			return nil, false
+		}
+		return orb.Polygon{v}, true
+	case orb.Bound:
+		return v.ToPolygon(), true
+	}
+	return nil, false
+}
+
+// encEntry: an encoder; its "kind-specific" counterpart is the encoding of the polygon a ring / bound is written as
+func encEntry(name, combine string, nilAsEmpty bool, call func(g orb.Geometry) string) entry {
+	return entry{name: name, readOnly: true, combine: combine, nilMemberAsEmpty: nilAsEmpty, call: call,
+		typed: func(g orb.Geometry) string {
+			if p, ok := asPolygon(g); ok {
+				return call(p)
+			}
+			return "-"
+		}}
+}
+
+// aliasEntry: an exported convenience wrapper that must return exactly what `ref` returns
+func aliasEntry(name string, call, ref func(g orb.Geometry) string) entry {
+	return entry{name: name, readOnly: true, combine: "", call: call, typed: ref}
+}
+
 func simpEntry(name string, mk func() orb.Simplifier) entry {
 	return entry{name: name, combine: "map", call: func(g orb.Geometry) string { return gsn(mk().Simplify(g)) },
 		typed: func(g orb.Geometry) string {
 			s := mk()
 			switch v := g.(type) {
+			case orb.Point:
+				return gsn(v) // returned as it is
+			case orb.MultiPoint:
+				return gsn(v)
+			case orb.Bound:
+				return gsn(v)
 			case orb.LineString:
 				return gsn(s.LineString(v))
 			case orb.MultiLineString:
@@ -74,6 +135,75 @@ func simpEntry(name string, mk func() orb.Simplifier) entry {
 			}
 			return "-"
 		}}
+}
+
+// clipTyped: the raw result of the kind's own clip function
+func clipTyped(g orb.Geometry) string {
+	switch v := g.(type) {
+	case orb.Point:
+		return gsn(v) // no function of its own: kept iff the pre-test passes
+	case orb.MultiPoint:
+		return gsn(clip.MultiPoint(c20Box, v))
+	case orb.LineString:
+		return gsn(clip.LineString(c20Box, v))
+	case orb.MultiLineString:
+		return gsn(clip.MultiLineString(c20Box, v))
+	case orb.Ring:
+		return gsn(clip.Ring(c20Box, v))
+	case orb.Polygon:
+		return gsn(clip.Polygon(c20Box, v))
+	case orb.MultiPolygon:
+		return gsn(clip.MultiPolygon(c20Box, v))
+	case orb.Collection:
+		return gsn(clip.Collection(c20Box, v))
+	case orb.Bound:
+		return gsn(clip.Bound(c20Box, v))
+	}
+	return "-"
+}
+
+func wkbMarshal(g orb.Geometry) string  { return bytesOut(wkb.Marshal(g)) }
+func ewkbMarshal(g orb.Geometry) string { return bytesOut(ewkb.Marshal(g, 4326)) }
+func wktMarshal(g orb.Geometry) string {
+	s := wkt.MarshalString(g)
+	if s == "" {
+		return "empty"
+	}
+	return us(s)
+}
+func geojsonMarshal(g orb.Geometry) string {
+	b, err := geojson.NewGeometry(g).MarshalJSON()
+	if err != nil {
+		return "err"
+	}
+	return us(string(b))
+}
+func mvtMarshal(g orb.Geometry) string {
+	fc := geojson.NewFeatureCollection()
+	fc.Append(geojson.NewFeature(g))
+	return bytesOut(mvt.Marshal(mvt.NewLayers(map[string]*geojson.FeatureCollection{"l": fc})))
+}
+func driverValue(v interface{}, err error) string {
+	if err != nil {
+		return "err"
+	}
+	if v == nil {
+		return "empty"
+	}
+	b, ok := v.([]byte)
+	if !ok {
+		return "notbytes"
+	}
+	return hexOrEmpty(b)
+}
+func hexString(s string, err error) string {
+	if err != nil {
+		return "err"
+	}
+	if s == "" {
+		return "empty"
+	}
+	return s
 }
 
 var c20Entries = []entry{
@@ -121,45 +251,61 @@ var c20Entries = []entry{
 			}
 			return "-"
 		}},
-	{name: "bound", readOnly: true, combine: "", call: func(g orb.Geometry) string {
+	{name: "bound", readOnly: true, combine: "bound", call: func(g orb.Geometry) string {
 		if g == nil {
 			return "nilgeom"
 		}
-		return strings.ReplaceAll(sbound(g.Bound()), " ", "_")
+		return us(sbound(g.Bound()))
 	}},
 	{name: "round", combine: "map", call: func(g orb.Geometry) string { return gsn(orb.Round(g, 10)) }},
-	{name: "planar.area", readOnly: true, call: func(g orb.Geometry) string { return fb(planar.Area(g)) }},
-	{name: "planar.centroid", readOnly: true, call: func(g orb.Geometry) string {
+	{name: "planar.area", readOnly: true, combine: "sum", call: func(g orb.Geometry) string { return fb(planar.Area(g)) }},
+	{name: "planar.centroid", readOnly: true, combine: "centroid", call: func(g orb.Geometry) string {
 		c, a := planar.CentroidArea(g)
 		return fb(c[0]) + "_" + fb(c[1]) + "_" + fb(a)
 	}},
 	{name: "planar.length", readOnly: true, combine: "sum", call: func(g orb.Geometry) string { return fb(planar.Length(g)) }},
 	{name: "planar.distfrom", readOnly: true, combine: "min", call: func(g orb.Geometry) string { return fb(planar.DistanceFrom(g, c20Pt)) }},
+	{name: "planar.distfromidx", readOnly: true, combine: "minidx", call: func(g orb.Geometry) string {
+		d, i := planar.DistanceFromWithIndex(g, c20Pt)
+		return fb(d) + "_" + fmt.Sprint(i)
+	}},
 	{name: "geo.area", readOnly: true, combine: "sum", call: func(g orb.Geometry) string { return fb(geo.Area(g)) }},
 	{name: "geo.length", readOnly: true, combine: "sum", call: func(g orb.Geometry) string { return fb(geo.Length(g)) }},
 	{name: "geo.lengthhav", readOnly: true, combine: "sum", call: func(g orb.Geometry) string { return fb(geo.LengthHaversine(g)) }},
-	{name: "clip", combine: "mapdrop", call: func(g orb.Geometry) string { return gsn(clip.Geometry(c20Box, g)) },
+	// the deprecated, misspelt twin: must return exactly what LengthHaversine returns
+	{name: "geo.lengthhaversign", readOnly: true, combine: "sum", call: func(g orb.Geometry) string { return fb(geo.LengthHaversign(g)) },
+		typed: func(g orb.Geometry) string { return fb(geo.LengthHaversine(g)) }},
+	{name: "clip", combine: "clip", call: func(g orb.Geometry) string { return gsn(clip.Geometry(c20Box, g)) }, typed: clipTyped},
+	{name: "smartclip", combine: "smartclip", call: func(g orb.Geometry) string { return gsn(smartclip.Geometry(c20Box, g, orb.CCW)) },
 		typed: func(g orb.Geometry) string {
-			wrap := func(r orb.Geometry, n int) string {
-				if n == 0 {
-					return "nil"
-				}
-				return gsn(r)
-			}
-			if g == nil || !c20Box.Intersects(g.Bound()) {
-				return "-"
-			}
 			switch v := g.(type) {
 			case orb.Ring:
-				r := clip.Ring(c20Box, v)
-				return wrap(r, len(r))
+				return gsn(smartclip.Ring(c20Box, v, orb.CCW))
 			case orb.Polygon:
-				r := clip.Polygon(c20Box, v)
-				return wrap(r, len(r))
+				return gsn(smartclip.Polygon(c20Box, v, orb.CCW))
+			case orb.MultiPolygon:
+				return gsn(smartclip.MultiPolygon(c20Box, v, orb.CCW))
 			}
-			return "-"
+			return clipTyped(g) // every other kind is handed to plain clipping
 		}},
-	{name: "smartclip", combine: "mapdrop", call: func(g orb.Geometry) string { return gsn(smartclip.Geometry(c20Box, g, orb.CCW)) }},
+	// boxes the totality theorems of the models do NOT cover (`BoxOK`: positive size): a point, a flat
+	// and an inverted box.  Judged for totality only.
+	{name: "clip.degbox", combine: "", call: func(g orb.Geometry) string {
+		out := []string{}
+		for _, b := range c20DegBoxes {
+			out = append(out, gsn(clip.Geometry(b, orb.Clone(g))))
+		}
+		return strings.Join(out, ";")
+	}},
+	{name: "smartclip.degbox", combine: "", call: func(g orb.Geometry) string {
+		out := []string{}
+		for _, b := range c20DegBoxes {
+			for _, o := range []orb.Orientation{orb.CCW, orb.CW} {
+				out = append(out, gsn(smartclip.Geometry(b, orb.Clone(g), o)))
+			}
+		}
+		return strings.Join(out, ";")
+	}},
 	{name: "project", combine: "map", call: func(g orb.Geometry) string { return gsn(project.Geometry(g, shift)) },
 		typed: func(g orb.Geometry) string {
 			switch v := g.(type) {
@@ -211,34 +357,61 @@ var c20Entries = []entry{
 			}
 			return "-"
 		}},
-	{name: "wkb", readOnly: true, call: func(g orb.Geometry) string {
-		b, err := wkb.Marshal(g)
-		if err != nil {
-			return "err"
-		}
-		return hexOrEmpty(b)
-	}},
-	{name: "ewkb", readOnly: true, call: func(g orb.Geometry) string {
-		b, err := ewkb.Marshal(g, 4326)
-		if err != nil {
-			return "err"
-		}
-		return hexOrEmpty(b)
-	}},
-	{name: "wkt", readOnly: true, call: func(g orb.Geometry) string {
-		s := wkt.MarshalString(g)
-		if s == "" {
+	encEntry("wkb", "wkb", true, wkbMarshal),
+	encEntry("ewkb", "ewkb", true, ewkbMarshal),
+	encEntry("wkt", "wkt", false, wktMarshal),
+	encEntry("geojson", "geojson", false, geojsonMarshal),
+	// convenience wrappers around the encoders: each must return exactly what Marshal returns
+	aliasEntry("wkb.hex", func(g orb.Geometry) string { return hexString(wkb.MarshalToHex(g)) }, wkbMarshal),
+	aliasEntry("wkb.must", func(g orb.Geometry) string { return hexOrEmpty(wkb.MustMarshal(g)) }, wkbMarshal),
+	aliasEntry("wkb.musthex", func(g orb.Geometry) string { return hexString(wkb.MustMarshalToHex(g), nil) }, wkbMarshal),
+	aliasEntry("wkb.value", func(g orb.Geometry) string { return driverValue(wkb.Value(g).Value()) }, wkbMarshal),
+	aliasEntry("ewkb.hex", func(g orb.Geometry) string { return hexString(ewkb.MarshalToHex(g, 4326)) }, ewkbMarshal),
+	aliasEntry("ewkb.must", func(g orb.Geometry) string { return hexOrEmpty(ewkb.MustMarshal(g, 4326)) }, ewkbMarshal),
+	aliasEntry("ewkb.musthex", func(g orb.Geometry) string { return hexString(ewkb.MustMarshalToHex(g, 4326), nil) }, ewkbMarshal),
+	aliasEntry("ewkb.value", func(g orb.Geometry) string { return driverValue(ewkb.Value(g, 4326).Value()) }, ewkbMarshal),
+	// the 4-byte little-endian SRID followed by the plain encoding (nothing for a value that writes no bytes)
+	aliasEntry("ewkb.prefix", func(g orb.Geometry) string { return driverValue(ewkb.ValuePrefixSRID(g, 4326).Value()) },
+		func(g orb.Geometry) string {
+			b, err := ewkb.Marshal(g, 0)
+			if err != nil {
+				return "err"
+			}
+			if len(b) == 0 {
+				return "empty"
+			}
+			return "e6100000" + hex.EncodeToString(b)
+		}),
+	aliasEntry("wkt.bytes", func(g orb.Geometry) string {
+		b := wkt.Marshal(g)
+		if len(b) == 0 {
 			return "empty"
 		}
-		return strings.ReplaceAll(s, " ", "_")
-	}},
-	{name: "geojson", readOnly: true, call: func(g orb.Geometry) string {
-		b, err := geojson.NewGeometry(g).MarshalJSON()
+		return us(string(b))
+	}, wktMarshal),
+	// GeoJSON feature and BSON paths (geojson.NewFeature / NewGeometry(..).MarshalBSON)
+	{name: "geojson.feature", readOnly: true, combine: "", call: func(g orb.Geometry) string {
+		b, err := geojson.NewFeature(g).MarshalJSON()
 		if err != nil {
 			return "err"
 		}
-		return strings.ReplaceAll(string(b), " ", "_")
+		return us(string(b))
+	}, typed: func(g orb.Geometry) string {
+		return us(`{"type":"Feature","geometry":`) + geojsonMarshal(g) + us(`,"properties":null}`)
 	}},
+	{name: "geojson.bson", readOnly: true, combine: "", call: func(g orb.Geometry) string {
+		return bytesOut(geojson.NewGeometry(g).MarshalBSON())
+	}, typed: func(g orb.Geometry) string {
+		if p, ok := asPolygon(g); ok {
+			return bytesOut(geojson.NewGeometry(p).MarshalBSON())
+		}
+		return "-"
+	}},
+	{name: "geojson.featurebson", readOnly: true, combine: "", call: func(g orb.Geometry) string {
+		return bytesOut(geojson.NewFeature(g).MarshalBSON())
+	}},
+	// mvt.encodeGeometry, reached through mvt.Marshal of a one-feature layer
+	encEntry("mvt", "", false, mvtMarshal),
 }
 
 func c20Entry(name string) *entry {
@@ -250,36 +423,126 @@ func c20Entry(name string) *entry {
 	return nil
 }
 
-// runC20: `<entry> <gval>` => generic | typed | unchanged | k member-outcomes…
-func runC20(op string, in []string) string {
-	if op != "call" {
-		return "badop"
+func emptyOfKind(g orb.Geometry) orb.Geometry {
+	switch g.(type) {
+	case orb.MultiPoint:
+		return orb.MultiPoint{}
+	case orb.LineString:
+		return orb.LineString{}
+	case orb.MultiLineString:
+		return orb.MultiLineString{}
+	case orb.Ring:
+		return orb.Ring{}
+	case orb.Polygon:
+		return orb.Polygon{}
+	case orb.MultiPolygon:
+		return orb.MultiPolygon{}
+	case orb.Collection:
+		return orb.Collection{}
 	}
+	return g
+}
+
+// runC20:
+//
+//	call <entry> <gval>       => generic | typed | unchanged | k member-outcomes…
+//	eq <gval1> <gval2>        => Equal(g1,g2) Equal(g2,g1) typed unchanged
+func runC20(op string, in []string) string {
+	switch op {
+	case "call":
+		return runC20Call(in)
+	case "eq":
+		return runC20Eq(in)
+	}
+	return "badop"
+}
+
+func runC20Call(in []string) string {
 	e := c20Entry(in[0])
 	if e == nil {
 		return "badentry"
 	}
 	parse := func() orb.Geometry { g, _ := parseGeom(in[1:]); return g }
 	g := parse()
-	before := gs(g)
+	before := gsN(g)
 	generic := guard(func() string { return e.call(g) })
-	unchanged := gs(g) == before
+	unchanged := gsN(g) == before
 	typed := "-"
 	if e.typed != nil {
 		typed = guard(func() string { return e.typed(parse()) })
 	}
 	parts := []string{generic, typed, b2s(unchanged)}
-	if c, ok := parse().(orb.Collection); ok && c != nil && e.combine != "" {
+	if c, ok := parse().(orb.Collection); ok && c != nil {
 		ms := []string{}
 		for _, m := range c {
-			m := m
-			ms = append(ms, guard(func() string { return e.call(orb.Clone(m)) }))
+			m := orb.Clone(m)
+			if e.nilMemberAsEmpty && isTypedNil(m) {
+				m = emptyOfKind(m)
+			}
+			ms = append(ms, guard(func() string { return e.call(m) }))
 		}
 		parts = append(parts, strings.TrimSpace(fmt.Sprint(len(ms))+" "+strings.Join(ms, " ")))
 	} else {
 		parts = append(parts, "-1")
 	}
 	return strings.Join(parts, " | ")
+}
+
+func typedEqual(a, b orb.Geometry) string {
+	switch v := a.(type) {
+	case orb.Point:
+		if w, ok := b.(orb.Point); ok {
+			return b2s(v.Equal(w))
+		}
+	case orb.MultiPoint:
+		if w, ok := b.(orb.MultiPoint); ok {
+			return b2s(v.Equal(w))
+		}
+	case orb.LineString:
+		if w, ok := b.(orb.LineString); ok {
+			return b2s(v.Equal(w))
+		}
+	case orb.MultiLineString:
+		if w, ok := b.(orb.MultiLineString); ok {
+			return b2s(v.Equal(w))
+		}
+	case orb.Ring:
+		if w, ok := b.(orb.Ring); ok {
+			return b2s(v.Equal(w))
+		}
+	case orb.Polygon:
+		if w, ok := b.(orb.Polygon); ok {
+			return b2s(v.Equal(w))
+		}
+	case orb.MultiPolygon:
+		if w, ok := b.(orb.MultiPolygon); ok {
+			return b2s(v.Equal(w))
+		}
+	case orb.Collection:
+		if w, ok := b.(orb.Collection); ok {
+			return b2s(v.Equal(w))
+		}
+	case orb.Bound:
+		if w, ok := b.(orb.Bound); ok {
+			return b2s(v.Equal(w))
+		}
+	}
+	return "-"
+}
+
+func runC20Eq(in []string) string {
+	parse := func() (orb.Geometry, orb.Geometry) {
+		a, rest := parseGeom(in)
+		b, _ := parseGeom(rest)
+		return a, b
+	}
+	a, b := parse()
+	ba, bb := gsN(a), gsN(b)
+	g1 := guard(func() string { return b2s(orb.Equal(a, b)) })
+	g2 := guard(func() string { return b2s(orb.Equal(b, a)) })
+	unchanged := gsN(a) == ba && gsN(b) == bb
+	ty := guard(func() string { x, y := parse(); return typedEqual(x, y) })
+	return g1 + " " + g2 + " " + ty + " " + b2s(unchanged)
 }
 
 // degenerate family: every kind x {typed nil, empty, one vertex, ordinary} with degenerate members at every level
@@ -298,10 +561,14 @@ func c20Leaves() []orb.Geometry {
 		orb.MultiPolygon(nil), orb.MultiPolygon{}, orb.MultiPolygon{{}}, orb.MultiPolygon{{orb.Ring{}}}, orb.MultiPolygon{{orb.Ring{p}}}, orb.MultiPolygon{poly}, orb.MultiPolygon{{}, poly}, orb.MultiPolygon{poly, {big}},
 		orb.Bound{Min: p, Max: p}, orb.Bound{Min: p, Max: r}, orb.Bound{}, orb.Bound{Min: orb.Point{5, 5}, Max: orb.Point{9, 9}},
 		orb.Collection(nil), orb.Collection{},
+		// nil slices below the top level (written with the count token `n`)
+		orb.MultiLineString{nil}, orb.MultiLineString{nil, {p, q}}, orb.Polygon{nil}, orb.Polygon{ring4, nil},
+		orb.MultiPolygon{nil}, orb.MultiPolygon{nil, poly}, orb.MultiPolygon{{nil}},
 	}
 }
 
-func genC20(c *Ctx) {
+// c20Vals: the leaves, alone and as members of collections nested to depth 2 (3 in the thorough tier)
+func c20Vals(tier string) []orb.Geometry {
 	leaves := c20Leaves()
 	var vals []orb.Geometry
 	vals = append(vals, nil)
@@ -312,19 +579,145 @@ func genC20(c *Ctx) {
 	}
 	for i, a := range leaves {
 		for j, b := range leaves {
-			if (i+j)%3 != 0 && c.Tier != "thorough" {
+			if (i+j)%3 != 0 && tier != "thorough" {
 				continue
 			}
 			vals = append(vals, orb.Collection{a, b})
 		}
 	}
+	// three members (the single-member unwrapping and two-member cases are not the general case):
+	// the leaf first / in the middle / last / twice, among members of dimension 0, 1 and 2 inside the clip box
+	in2 := orb.Polygon{{{1, 2}, {2, 2}, {2, 3}, {1, 2}}}
+	in1 := orb.LineString{{0.5, 0.5}, {3.5, 0.5}, {3.5, 1.5}}
+	for _, a := range leaves {
+		vals = append(vals, orb.Collection{a, in2, in1}, orb.Collection{in2, a, orb.Point{2, 2}}, orb.Collection{in1, orb.Ring(in2[0]), a},
+			orb.Collection{a, in2, a, in2})
+	}
 	// depth 2 (and 3 in the thorough tier)
 	for _, a := range leaves {
 		vals = append(vals, orb.Collection{orb.Collection{a}}, orb.Collection{orb.Collection{}, orb.Collection{a, orb.Point{2, 2}}})
-		if c.Tier == "thorough" {
+		if tier == "thorough" {
 			vals = append(vals, orb.Collection{orb.Collection{orb.Collection{a}}, a})
 		}
 	}
+	return vals
+}
+
+// perturb returns variants of g that differ from it in one place (a coordinate, a vertex more or
+// less, a member more or less), for the unequal pairs of `eq`.
+func perturb(g orb.Geometry) []orb.Geometry {
+	var out []orb.Geometry
+	bump := func(ps []orb.Point) {
+		if len(ps) > 0 {
+			ps[len(ps)-1][1] += 0.5
+		}
+	}
+	switch v := g.(type) {
+	case orb.Point:
+		out = append(out, orb.Point{v[0], v[1] + 0.5}, orb.Point{v[0] + 0.5, v[1]})
+	case orb.Bound:
+		out = append(out, orb.Bound{Min: v.Min, Max: orb.Point{v.Max[0], v.Max[1] + 0.5}}, orb.Bound{Min: orb.Point{v.Min[0] - 0.5, v.Min[1]}, Max: v.Max})
+	case orb.MultiPoint:
+		c := v.Clone()
+		bump(c)
+		out = append(out, c, append(v.Clone(), orb.Point{7, 7}))
+		if len(v) > 0 {
+			out = append(out, v.Clone()[:len(v)-1])
+		}
+	case orb.LineString:
+		c := v.Clone()
+		bump(c)
+		out = append(out, c, append(v.Clone(), orb.Point{7, 7}))
+		if len(v) > 0 {
+			out = append(out, v.Clone()[:len(v)-1])
+		}
+	case orb.Ring:
+		c := v.Clone()
+		bump(c)
+		out = append(out, c, append(v.Clone(), orb.Point{7, 7}))
+		if len(v) > 0 {
+			out = append(out, v.Clone()[:len(v)-1])
+		}
+	case orb.MultiLineString:
+		c := v.Clone()
+		if len(c) > 0 {
+			bump(c[len(c)-1])
+		}
+		out = append(out, c, append(v.Clone(), orb.LineString{{7, 7}}), append(v.Clone(), orb.LineString{}))
+		if len(v) > 0 {
+			out = append(out, v.Clone()[:len(v)-1])
+		}
+	case orb.Polygon:
+		c := v.Clone()
+		if len(c) > 0 {
+			bump(c[len(c)-1])
+		}
+		out = append(out, c, append(v.Clone(), orb.Ring{{7, 7}}), append(v.Clone(), orb.Ring{}))
+		if len(v) > 0 {
+			out = append(out, v.Clone()[:len(v)-1])
+		}
+	case orb.MultiPolygon:
+		c := v.Clone()
+		if len(c) > 0 && len(c[len(c)-1]) > 0 {
+			bump(c[len(c)-1][len(c[len(c)-1])-1])
+		}
+		out = append(out, c, append(v.Clone(), orb.Polygon{{{7, 7}}}), append(v.Clone(), orb.Polygon{}))
+		if len(v) > 0 {
+			out = append(out, v.Clone()[:len(v)-1])
+		}
+	case orb.Collection:
+		out = append(out, append(v.Clone(), orb.Point{7, 7}))
+		if len(v) > 0 {
+			out = append(out, v.Clone()[:len(v)-1])
+			for _, m := range perturb(v[len(v)-1]) {
+				c := v.Clone()
+				c[len(c)-1] = m
+				out = append(out, c)
+			}
+		}
+	}
+	return out
+}
+
+// lookalikes returns values of ANOTHER kind that share g's GeoJSON type or vertex list (ring vs its
+// one-ring polygon vs the bound's polygon, line vs ring vs multi-point on the same vertices): the
+// pairs that get past `g1.GeoJSONType() != g2.GeoJSONType()` and reach the unchecked / checked type
+// assertions of orb.Equal.
+func lookalikes(g orb.Geometry) []orb.Geometry {
+	switch v := g.(type) {
+	case orb.Point:
+		return []orb.Geometry{orb.MultiPoint{v}, orb.Bound{Min: v, Max: v}}
+	case orb.MultiPoint:
+		return []orb.Geometry{orb.LineString(v), orb.Ring(v)}
+	case orb.LineString:
+		return []orb.Geometry{orb.MultiPoint(v), orb.Ring(v), orb.MultiLineString{v}}
+	case orb.Ring:
+		return []orb.Geometry{orb.Polygon{v}, orb.LineString(v), v.Bound(), orb.MultiPolygon{{v}}}
+	case orb.Polygon:
+		out := []orb.Geometry{orb.MultiPolygon{v}, orb.MultiLineString(nil), v.Bound()}
+		if len(v) > 0 {
+			out = append(out, v[0])
+		} else {
+			out = append(out, orb.Ring{}, orb.Ring(nil))
+		}
+		return out
+	case orb.MultiPolygon:
+		if len(v) > 0 {
+			return []orb.Geometry{v[0], orb.Collection{v[0]}}
+		}
+		return []orb.Geometry{orb.Polygon{}, orb.Collection{}}
+	case orb.Bound:
+		return []orb.Geometry{v.ToPolygon(), v.ToRing(), v.Min}
+	case orb.Collection:
+		if len(v) == 1 {
+			return []orb.Geometry{v[0]}
+		}
+	}
+	return nil
+}
+
+func genC20(c *Ctx) {
+	vals := c20Vals(c.Tier)
 	idx := 0
 	for _, e := range c20Entries {
 		for _, v := range vals {
@@ -335,10 +728,73 @@ func genC20(c *Ctx) {
 			c.Case("call", e.name+" "+gsN(orb.Clone(v)))
 		}
 	}
+	// orb.Equal on PAIRS: every leaf against every leaf (cross-kind: all 9 x 9 kind pairs, nil
+	// interface and typed nils on either side), against its look-alikes of another kind, against
+	// one-place perturbations of itself, and the same inside collections
+	leaves := append([]orb.Geometry{nil}, c20Leaves()...)
+	pair := func(a, b orb.Geometry) {
+		idx++
+		if !c.Mine(idx) {
+			return
+		}
+		c.Case("eq", gsN(orb.Clone(a))+" "+gsN(orb.Clone(b)))
+	}
+	for _, a := range leaves {
+		for _, b := range leaves {
+			pair(a, b)
+		}
+		for _, b := range lookalikes(a) {
+			pair(a, b)
+			pair(b, a)
+			pair(orb.Collection{a}, orb.Collection{b})
+			pair(orb.Collection{orb.Point{2, 2}, a}, orb.Collection{orb.Point{2, 2}, b})
+		}
+		for _, b := range perturb(a) {
+			pair(a, b)
+			pair(b, a)
+			pair(orb.Collection{a}, orb.Collection{b})
+		}
+		if a != nil {
+			pair(orb.Collection{a}, a)
+			pair(orb.Collection{a}, orb.Collection{a, a})
+			pair(orb.Collection{a, orb.Point{2, 2}}, orb.Collection{orb.Point{2, 2}, a})
+			pair(orb.Collection{orb.Collection{a}}, orb.Collection{a})
+		}
+	}
 	// ordinary random values
+	opts := func() GenOpts {
+		return GenOpts{Mode: []CoordMode{CoordSmallInt, CoordHalf, CoordModest}[c.Rng.Intn(3)], MaxPts: 6, MaxDepth: 3, TopNil: true, InnerNil: true}
+	}
 	for k := 0; k < c.Budget && !c.Exhausted(); k++ {
+		if k%8 == 7 { // a random pair for orb.Equal: equal copy / look-alike / perturbation / unrelated value
+			g := genGeom(c.Rng, opts(), 0)
+			var h orb.Geometry
+			switch c.Rng.Intn(4) {
+			case 0:
+				h = orb.Clone(g)
+			case 1:
+				if l := lookalikes(g); len(l) > 0 {
+					h = l[c.Rng.Intn(len(l))]
+				} else {
+					h = orb.Clone(g)
+				}
+			case 2:
+				if l := perturb(g); len(l) > 0 {
+					h = l[c.Rng.Intn(len(l))]
+				} else {
+					h = genGeom(c.Rng, opts(), 0)
+				}
+			default:
+				h = genGeom(c.Rng, opts(), 0)
+			}
+			if c.Rng.Intn(2) == 0 {
+				g, h = h, g
+			}
+			c.Case("eq", gsN(g)+" "+gsN(h))
+			continue
+		}
 		e := c20Entries[c.Rng.Intn(len(c20Entries))]
-		g := genGeom(c.Rng, GenOpts{Mode: []CoordMode{CoordSmallInt, CoordHalf, CoordModest}[c.Rng.Intn(3)], MaxPts: 6, MaxDepth: 3, TopNil: true, InnerNil: true}, 0)
+		g := genGeom(c.Rng, opts(), 0)
 		c.Case("call", e.name+" "+gsN(g))
 	}
 }
